@@ -129,6 +129,7 @@ type s3Fake struct {
 	mu     sync.Mutex
 	script []string
 	calls  []s3Call
+	cancel func() // the worker's terminate-context cancel function (script token x<n>)
 }
 
 func (f *s3Fake) PutObjectWithContext(ctx aws.Context, in *s3.PutObjectInput, _ ...request.Option) (*s3.PutObjectOutput, error) {
@@ -143,6 +144,12 @@ func (f *s3Fake) PutObjectWithContext(ctx aws.Context, in *s3.PutObjectInput, _ 
 	if len(f.script) > 0 {
 		act = f.script[0]
 		f.script = f.script[1:]
+	}
+	if strings.HasPrefix(act, "x") && f.cancel != nil {
+		// shutdown is requested WHILE this call is in flight: the call fails (a real SDK call on a cancelled context does);
+		// nothing was stored, so nothing may be reported written
+		f.cancel()
+		act = "f" + act[1:]
 	}
 	if strings.HasPrefix(act, "f") {
 		n, _ := strconv.ParseInt(act[1:], 10, 64)
@@ -225,6 +232,7 @@ func newS3Worker(ks string, reuse int, budget uint64) *s3Worker {
 		clock: &s3Clock{nano: 1700000000000000000},
 		stopS: make(chan struct{}),
 	}
+	w.fake.cancel = w.sh.CancelFunc
 	lg, h := quietLogger()
 	w.logs = h
 	go func() {
@@ -579,6 +587,13 @@ func s3Gen(r *Rng, tier string) Case {
 			}
 			if r.Chance(50) {
 				script = append(script, "ok")
+			}
+		}
+		if r.Chance(6) {
+			// shutdown requested while the first upload is in flight; the context stays cancelled, so every later call fails too
+			script = []string{fmt.Sprintf("x%d", r.Range(0, 50))}
+			for j := 0; j <= budget+1; j++ {
+				script = append(script, "f0")
 			}
 		}
 		cancel := "none"
